@@ -298,23 +298,24 @@ class Program:
         o.append('// exported hooks for the C14 pair package (excluded members may be unexported)\nfunc VExclZeroRec(a Rec) bool { return vExclZero_%s(a) }\n' % self.root)
 
         def fillex(tname, kids):
-            L = ['func vFillExcl_%s(a *%s) {' % (tname, tname)]
+            # draws come from the caller's intrinsics (the pair package owns the replay vector)
+            L = ['func vFillExcl_%s(a *%s, i32 func() int32, u8 func() uint8) {' % (tname, tname)]
             for k in kids:
                 n = k.gotype if k.embedded else k.name
                 if k.excl is not None:
                     t = k.excl[0]
                     if t == 'int32':
-                        L.append('\ta.%s = vNondetI32()' % n)
+                        L.append('\ta.%s = i32()' % n)
                     elif t == '*string':
-                        L.append('\t{ s := vFixedString(1); a.%s = &s }' % n)
+                        L.append('\t{ s := string([]byte{u8()}); a.%s = &s }' % n)
                     elif t == '[]byte':
-                        L.append('\ta.%s = []byte{vNondetU8()}' % n)
+                        L.append('\ta.%s = []byte{u8()}' % n)
                     elif t.startswith('map'):
                         L.append('\ta.%s = map[string]int{"k": 1}' % n)
                     elif t.startswith('struct{'):
-                        L.append('\ta.%s.Q = vNondetI32()' % n)
+                        L.append('\ta.%s.Q = i32()' % n)
                     elif t == 'EMBED_UNEXPORTED':
-                        L.append('\ta.%s.Rev = vNondetI32(); a.%s.Who = vFixedString(1)' % (n, n))
+                        L.append('\ta.%s.Rev = i32(); a.%s.Who = string([]byte{u8()})' % (n, n))
                     elif t == 'interface{}':
                         L.append('\ta.%s = 7' % n)
                     elif t == '*Unsupported':
@@ -323,18 +324,18 @@ class Program:
                 if k.kids is None:
                     continue
                 if k.rep == 'req':
-                    L.append('\tvFillExcl_%s(&a.%s)' % (k.gotype, n))
+                    L.append('\tvFillExcl_%s(&a.%s, i32, u8)' % (k.gotype, n))
                 elif k.rep == 'opt':
-                    L.append('\tif a.%s != nil { vFillExcl_%s(a.%s) }' % (n, k.gotype, n))
+                    L.append('\tif a.%s != nil { vFillExcl_%s(a.%s, i32, u8) }' % (n, k.gotype, n))
                 else:
-                    L.append('\tfor i := range a.%s { vFillExcl_%s(&a.%s[i]) }' % (n, k.gotype, n))
+                    L.append('\tfor i := range a.%s { vFillExcl_%s(&a.%s[i], i32, u8) }' % (n, k.gotype, n))
             L += ['}\n']
             o.append('\n'.join(L))
             for k in kids:
                 if k.kids is not None and k.excl is None:
                     fillex(k.gotype, k.kids)
         fillex(self.root, self.kids)
-        o.append('func VFillExcluded(a *Rec) { vFillExcl_%s(a) }\n' % self.root)
+        o.append('func VFillExcluded(a *Rec, i32 func() int32, u8 func() uint8) { vFillExcl_%s(a, i32, u8) }\n' % self.root)
         o.append('func VSameRec(a, b Rec) bool { return vSame_%s(a, b) }\n' % self.root)
 
         # ---- mutate every reachable cell behind pointers and slices (C01 aliasing clause)
